@@ -11,7 +11,8 @@ file: `List.drop`), magics select enum variants, a failed read makes `PatchChunk
 (`none` = `no_header_decompress` returns `false`).
 
 The model mirrors the code *with the fixes* `fixes/C04-01…` (relative-path and content comparison
-in `create`) and `fixes/C03-01…` (big-endian ADIR/DELD name length).
+in `create`) `fixes/C03-01…` (big-endian ADIR/DELD name length) and `fixes/C03-02…` (MakeDirTree makes the whole
+path).
 -/
 namespace Physis.Patch
 open Physis Physis.Fs
@@ -455,7 +456,8 @@ def applyChunk (ti : Option UInt8) (t : Tree) (data : Bytes) : Chunk → Option 
       let d : Path := [sqpackName, expansionFolder exp]
       (ti, if isDir t d then eraseUnder t d else t, none)
     | .makeDirTree =>
-      match mkdirAll t [] parent with
+      -- `create_dir_all(&file_path)` (fix C03-02: the whole path, not `parent_directory`)
+      match mkdirAll t [] full with
       | none => (ti, t, some .ioError)
       | some t1 => (ti, t1, none)
   | _ => (ti, t, none)
